@@ -6,6 +6,7 @@ CONSTANTS
   PDir = FALSE
   PLoops = FALSE
   PKF <- PathKF
+  PSparse = FALSE
 INVARIANT InvPaths
 INVARIANT InvValid
 INVARIANT InvDag
